@@ -58,6 +58,8 @@ type world struct {
 	// peer-side knowledge gathered from the wire
 	returns   map[int]J   // answer id -> decoded Return received from the Conn
 	questions []int       // question ids the Conn opened, in order
+	bootWait  []bootHandle // local Bootstrap calls whose Bootstrap message has not been seen on the wire yet
+	bootQ     map[int]bootHandle // bootstrap question id -> the application's handle for its result
 	qkind     map[int]string
 	// application side
 	cmds    map[int]chan string
@@ -260,6 +262,13 @@ func payloadTag(p rpccp.Payload) int {
 	return int(c.Struct().Uint32(0))
 }
 
+// bootHandle: the application's handle for the result of a local Bootstrap.  The handle denotes the import only once the
+// peer's Return has brought the reference (l-handle is logged then, not when the Bootstrap is issued).
+type bootHandle struct {
+	h   string
+	cap int
+}
+
 // recordSend decodes a message the Conn sends and logs it.
 func (w *world) recordSend(m rpccp.Message) {
 	e := J{"ev": "msg", "dir": "send"}
@@ -268,6 +277,13 @@ func (w *world) recordSend(m rpccp.Message) {
 		b, _ := m.Bootstrap()
 		e["m"], e["q"] = "bootstrap", int(b.QuestionId())
 		w.mu.Lock()
+		if len(w.bootWait) > 0 {
+			if w.bootQ == nil {
+				w.bootQ = map[int]bootHandle{}
+			}
+			w.bootQ[int(b.QuestionId())] = w.bootWait[0]
+			w.bootWait = w.bootWait[1:]
+		}
 		w.questions = append(w.questions, int(b.QuestionId()))
 		w.qkind[int(b.QuestionId())] = "bootstrap"
 		w.mu.Unlock()
@@ -1115,6 +1131,16 @@ func (w *world) step(a action, closed *bool) {
 			e["kind"] = "results"
 		}
 		w.deliver(msg, e)
+		if a.Kind == "bootcap" {
+			// from this Return on the application's handle for the Bootstrap result denotes the import
+			w.mu.Lock()
+			b, ok := w.bootQ[qid]
+			delete(w.bootQ, qid)
+			w.mu.Unlock()
+			if ok {
+				w.log(J{"ev": "l-handle", "h": b.h, "e": b.cap})
+			}
+		}
 	case "p-raw":
 		w.hostile(a)
 	case "a-return":
@@ -1131,11 +1157,20 @@ func (w *world) step(a action, closed *bool) {
 		}
 	case "l-bootstrap":
 		w.log(J{"ev": "l-bootstrap", "h": a.H})
+		w.mu.Lock()
+		w.bootWait = append(w.bootWait, bootHandle{a.H, a.Cap})
+		w.mu.Unlock()
 		c := w.conn.Bootstrap(context.Background())
 		w.mu.Lock()
 		w.handles[a.H] = c
+		// the Bootstrap message is written before Bootstrap returns; an entry nobody claimed belongs to a call that sent nothing
+		for i, b := range w.bootWait {
+			if b.h == a.H {
+				w.bootWait = append(w.bootWait[:i:i], w.bootWait[i+1:]...)
+				break
+			}
+		}
 		w.mu.Unlock()
-		w.log(J{"ev": "l-handle", "h": a.H, "e": a.Cap})
 	case "l-call":
 		w.mu.Lock()
 		c := w.handles[a.H]
